@@ -90,11 +90,13 @@ C10(i) ==
            THEN { <<"C10.wellformed_blank_position", s.empty_tile_position = Blank0(s.puzzle)>> } ELSE {})
      \cup (IF IsPerm(s.puzzle) /\ RandomWalk
            THEN { <<"C10.wellformed_solvable", Solvable(s.puzzle)>>,
-                  <<"C10.wellformed_instance", WellFormedInstance(A(s))>>,
-                  <<"C10.wellformed_walk_parity", WalkParity(s.puzzle, Cfg.num_random_moves)>> }
+                  <<"C10.wellformed_instance", WellFormedInstance(A(s))>> }
+           ELSE {})
+     \cup (IF IsPerm(s.puzzle) /\ RandomWalk /\ Cfg.num_random_moves >= 0     \* -1: walk length not requested
+           THEN { <<"C10.wellformed_walk_parity", WalkParity(s.puzzle, Cfg.num_random_moves)>> }
            ELSE {})
    ELSE {})
-  \cup (IF RandomWalk /\ Cfg.num_random_moves >= 3 THEN C10NonConstant(i, LAMBDA st : st.puzzle) ELSE {})
+  \cup (IF RandomWalk /\ (Cfg.num_random_moves >= 3 \/ Cfg.num_random_moves = -1) THEN C10NonConstant(i, LAMBDA st : st.puzzle) ELSE {})
 
 (* ---------------- C11: time limit as requested by the harness ---------------- *)
 C11(i) ==
